@@ -18,9 +18,9 @@ for mp in sorted(glob.glob(os.path.join(VERIF, "seeded", "*", "meta.json"))):
                     what = line
                     break
     what = re.sub(r"\s+", " ", what)[:110]
-    rows.append((name, m["breaks_property"], ", ".join(m.get("checks_fired", [])) or "—", ", ".join(m.get("rules_reporting", []))[:70], HIST.get(name, "caught by the checks as they stood"), what))
-print("| change | property | checks that fire | reporting rules | history | what it does |")
-print("|---|---|---|---|---|---|")
+    rows.append((name, m["breaks_property"], ", ".join(m.get("checks_fired", [])) or "—", ", ".join(m.get("checks_undecided", [])) or "—", ", ".join(m.get("rules_reporting", []))[:70], HIST.get(name, "caught by the checks as they stood"), what))
+print("| change | property | checks reporting a violation | checks answering 'cannot speak' | reporting rules | history | what it does |")
+print("|---|---|---|---|---|---|---|")
 for r in rows:
     print("| " + " | ".join(x.replace("|", "\\|") for x in r) + " |")
-print(f"\n{len(rows)} changes; {sum(1 for r in rows if r[2] != '—')} reported by at least one check; {sum(1 for r in rows if r[1] in r[2])} reported by the check of the property they were written against.")
+print(f"\n{len(rows)} changes; {sum(1 for r in rows if r[2] != '—')} reported as a violation by at least one check; {sum(1 for r in rows if r[1] in r[2])} by the check of the property they were written against; {sum(1 for r in rows if r[2] == '—' and r[3] != '—')} answered only with 'cannot speak'; {sum(1 for r in rows if r[2] == '—' and r[3] == '—')} not noticed.")
